@@ -137,7 +137,7 @@ prop("C16", "Transport routes each graphsync event to its channel; none after cl
 
 prop("C17", "Subscribers see every applied event once, in order", "exploration", "mgrx",
      "stateful property testing (rapid): subscriber call logs compared with the datastore write log (independent DAG-CBOR reader) and with a witness subscriber restricted to fenced subscription windows",
-     [hx("TestC17_Mgrx", 3000, 96000)],
+     [hx("TestC17_Mgrx", 3000, 96000), hx("TestC09_Fsmx", 1500, 32000)],
      ["every applied event changes the persisted bytes (stage-log timestamp), so the write log has exactly one Put per applied event - checked, not assumed, by the count comparison",
       "'released when the channel terminates' is observable only as 'no call after the terminal event'"],
      "generated multi-channel histories x subscriber sets x (un)subscribe points; sampled",
